@@ -121,7 +121,7 @@ func ruleT7(w *world.World, r *report.RuleResult) {
 			if _, isGo := c.(*ssa.Go); isGo {
 				continue
 			}
-			if f := c.Common().StaticCallee(); f != nil && f.Name() == "TakeSnapshot" {
+			if f := c.Common().StaticCallee(); f != nil && world.BaseName(f) == "TakeSnapshot" {
 				direct = true
 			}
 		}
